@@ -101,6 +101,8 @@ def _expected_arg(case):
             return pd.IntervalIndex.from_breaks(e["breaks"], closed=e.get("closed", "right"))
         if isinstance(e, dict):
             return dec(e)
+        if case.get("expected_kind") == "index":
+            return pd.Index([dec_scalar(x) for x in e])  # the user hands over a pandas.Index (not sorted by flox's array path)
         return np.array([dec_scalar(x) for x in e])
 
     if case.get("nby", 1) == 1 and not case.get("expected_tuple"):
